@@ -158,38 +158,46 @@ def errName : Err → String
 structure TensorIn where
   name : String
   dims : List Int
-  /-- per level: none = dense; some (pos, crd) where each is none = NULL or some cells -/
-  levels : List (Option (Option (List Int) × Option (List Int)))
-  vals : Option (List Float)
+  /-- per level: none = dense; some (pos, crd) where each is none = NULL or some cells
+  (a cell is `none` when uninitialised) -/
+  levels : List (Option (Option (List (Option Int)) × Option (List (Option Int))))
+  vals : Option (List (Option Float))
   owner : Owner
 
-def intsOrNull : Sexp → Option (Option (List Int))
-  | .atom "null" => some none
-  | s => s.toInts?.map some
+def optInt : Sexp → Option (Option Int)
+  | .atom "u" => some none
+  | s => s.toInt?.map some
 
-def levelIn : Sexp → Option (Option (Option (List Int) × Option (List Int)))
+def intsOrNull : Sexp → Option (Option (List (Option Int)))
+  | .atom "null" => some none
+  | .list xs => (xs.mapM optInt).map some
+  | _ => none
+
+def levelIn : Sexp → Option (Option (Option (List (Option Int)) × Option (List (Option Int))))
   | .list [.atom "dense"] => some none
   | .list [.atom "compressed", p, c] => do pure (some (← intsOrNull p, ← intsOrNull c))
   | _ => none
+
+def optFloat : Sexp → Option (Option Float)
+  | .atom "u" => some none
+  | s => (floatOf s).map some
 
 def tensorInOf : Sexp → Option TensorIn
   | .list [.atom "tensor", .str name, dims, .list levels, vals, .atom role] => do
     let vs ← match vals with
       | .atom "null" => some none
-      | .list xs => (xs.mapM floatOf).map some
+      | .list xs => (xs.mapM optFloat).map some
       | _ => none
     let owner ← match role with | "input" => some Owner.input | "output" => some Owner.output | _ => none
     pure ⟨name, ← dims.toInts?, ← levels.mapM levelIn, vs, owner⟩
   | _ => none
 
-def mkCells {α : Type} (xs : List α) : List (Nat × α) := (List.range xs.length).zip xs
-
 /-- lay out the tensors as machine blocks; returns the state and the tensor names in order -/
 def buildState (ts : List TensorIn) : State Float :=
   ts.foldl (fun (σ : State Float) t =>
-    let addBlk (h : List (Block Float)) (ty : ElemTy) (cells : List (Val Float)) : List (Block Float) × Val Float :=
-      (h ++ [⟨ty, cells.length, mkCells cells, t.owner, true⟩], .ptr h.length 0)
-    let (h1, _) := addBlk σ.heap .int (t.dims.map .int)
+    let addBlk (h : List (Block Float)) (ty : ElemTy) (cells : List (Option (Val Float))) : List (Block Float) × Val Float :=
+      (h ++ [⟨ty, cells, t.owner, true⟩], .ptr h.length 0)
+    let (h1, _) := addBlk σ.heap .int (t.dims.map fun d => some (.int d))
     let dimsBlk := σ.heap.length
     let (h2, slots) := t.levels.foldl (fun (acc : List (Block Float) × List (Option (Val Float × Val Float))) lv =>
       match lv with
@@ -197,14 +205,14 @@ def buildState (ts : List TensorIn) : State Float :=
       | some (p, c) =>
         let (ha, pv) := match p with
           | none => (acc.1, Val.null)
-          | some xs => addBlk acc.1 .int (xs.map .int)
+          | some xs => addBlk acc.1 .int (xs.map fun (x : Option Int) => x.map Val.int)
         let (hb, cv) := match c with
           | none => (ha, Val.null)
-          | some xs => addBlk ha .int (xs.map .int)
+          | some xs => addBlk ha .int (xs.map fun (x : Option Int) => x.map Val.int)
         (hb, acc.2 ++ [some (pv, cv)])) (h1, [])
     let (h3, vv) := match t.vals with
       | none => (h2, Val.null)
-      | some xs => addBlk h2 .float (xs.map .flt)
+      | some xs => addBlk h2 .float (xs.map fun (x : Option Float) => x.map Val.flt)
     { σ with heap := h3,
              tensors := σ.tensors ++ [⟨t.levels.length, dimsBlk, slots, vv, t.owner⟩] })
     ⟨[], [], []⟩
@@ -217,8 +225,8 @@ def bindParams (σ : State Float) (params : List (String × Ty)) (names : List S
   pure { σ with vars := vars }
 
 def cellsToSexp (b : Block Float) : Sexp :=
-  .list ((List.range b.len).map fun i =>
-    match getCell i b.cells with
+  .list (b.cells.map fun c =>
+    match c with
     | none => .atom "u"
     | some v => valToSexp v)
 
